@@ -46,7 +46,7 @@ class ExprMixin:
                     text = f'zoom_mem ({text})'
                 else:
                     raise self.uns(f'state mismatch calling {out.pyname}: {out.state} from {want}', node)
-        return self.bind_comp(Prim(text, out.level))
+        return self.bind_comp(Prim(text, out.level, ro=getattr(out, 'ro', False)))
 
     def match_args(self, out, pos, kws, env, node, skip=0):
         """match python args to the callee's python parameter names; returns (pre, [terms])"""
@@ -84,7 +84,12 @@ class ExprMixin:
         if ty[0] == 'opt' and ty[1] == T.TZ:
             # None used as a number: TypeError
             return self.bind_comp(Prim(f'enone {paren(term)}', 1))
+        if ty in (T.TUNIT, T.TNONE):
+            return self.bind_comp(Raise('EHost HType', 1), 'u')
         raise self.uns(f'expected an integer, got {ty}: {T.unparse(node)}', node)
+
+    def hoistable(self, pre):
+        return all(is_ro(c_) for (_, c_) in pre)
 
     # ------------------------------------------------------------------ conditions (bool context)
     def cond(self, node, env):
@@ -98,7 +103,8 @@ class ExprMixin:
             pre, acc = self.cond(node.values[0], env)
             for v in node.values[1:]:
                 p2, b2 = self.cond(v, env)
-                if not p2:
+                if self.hoistable(p2):
+                    pre += p2
                     acc = f'{paren(acc)} {op} {paren(b2)}'
                 else:
                     # short-circuit: the right operand has effects / may raise
@@ -123,7 +129,7 @@ class ExprMixin:
             return pre, f'(match {term} with Some _ => true | None => false end)'
         if ty == T.TCCLS or ty == T.TOPC:
             return pre, 'true'
-        if ty == T.TNONE:
+        if ty == T.TNONE or ty == T.TUNIT:
             return pre, 'false'
         raise self.uns(f'truth value of {ty}', node)
 
@@ -161,7 +167,7 @@ class ExprMixin:
                 parts.append(b)
                 continue
             p2, rt, rty = self.expr(right, env)
-            if p2 and parts:
+            if p2 and parts and not all(isinstance(c_, Prim) and c_.ro for (_, c_) in p2):
                 raise self.uns('effectful chained comparison', node)
             pre += p2
             if (lty == T.TNONE or rty == T.TNONE) and isinstance(op, (ast.Eq, ast.NotEq)):
@@ -212,6 +218,10 @@ class ExprMixin:
                 p, t, ty = self.expr(e, env)
                 if ty[0] in ('reg', 'obj', 'mod'):
                     raise self.uns('object in tuple', node)
+                if ty[0] == 'opt' and ty[1][0] == 'rec':
+                    p2, t = self.bind_comp(Prim(f'enone {paren(t)}', 1), 'o')
+                    p = p + p2
+                    ty = ty[1]
                 pre += p; ts.append(t); tys.append(ty)
             return pre, '(' + ', '.join(ts) + ')', T.TTup(tys)
         if isinstance(node, ast.UnaryOp):
@@ -241,8 +251,8 @@ class ExprMixin:
             ty = T.join_type(tya, tyb, node)
             ta = T.coerce_term(ta, tya, ty, node)
             tb = T.coerce_term(tb, tyb, ty, node)
-            if not pa and not pb:
-                return pc, f'(if {b} then {ta} else {tb})', ty
+            if self.hoistable(pa) and self.hoistable(pb):
+                return pc + pa + pb, f'(if {b} then {ta} else {tb})', ty
             comp = If(b, self.wrap_pre(pa, Ret(ta)), self.wrap_pre(pb, Ret(tb)))
             p, n = self.bind_comp(comp, 'c')
             return pc + p, n, ty
@@ -320,7 +330,8 @@ class ExprMixin:
             p2, t2, ty2 = self.expr(v, env)
             if aty != T.TZ or ty2 != T.TZ:
                 raise self.uns('and/or on non-integers in value context', node)
-            if not p2:
+            if self.hoistable(p2):
+                pre += p2
                 f = 'pand' if isinstance(node.op, ast.And) else 'por'
                 acc = f'({f} {paren(acc)} {paren(t2)})'
             else:
@@ -351,6 +362,8 @@ class ExprMixin:
                     return [], ('excself',)
                 if ty[0] == 'rec':
                     return [], ('rec', node.id, ty[1], [])
+                if ty[0] == 'opt' and ty[1][0] == 'rec':
+                    return [], ('rec', node.id, ty[1][1], [])
                 if ty == T.TDevRef():
                     return [], ('devref', v.coq)
                 if ty == T.TEXN:
@@ -429,7 +442,7 @@ class ExprMixin:
                 if (base[1], a) in self.tr.enum_consts:
                     return pre, ('enum', base[1], a)
                 return pre, ('classattr', base[1], a)
-            if k == 'val':
+            if k in ('val', 'executed', 'mfield', 'zslot'):
                 return pre, ('valattr', node.value, a)
             raise self.uns(f'attribute {a} of {base}', node)
         if isinstance(node, ast.Subscript):
@@ -466,7 +479,7 @@ class ExprMixin:
         if loc[0] == 'self':
             return [], 'v_self'
         if loc[0] == 'slot':
-            return self.bind_comp(Prim(f'get_sys {loc[1]}', 2), 'r')
+            return self.bind_comp(Prim(f'get_sys {loc[1]}', 2, ro=True), 'r')
         return self.bind_comp(Prim(f'get_sysl {loc[1]} {paren(loc[2])}', 2), 'r')
 
     def reg_write_prim(self, reg, term):
@@ -483,6 +496,11 @@ class ExprMixin:
         term = v.coq
         if v.optional:
             pre, term = self.bind_comp(Prim(f'eunbound {v.coq}', 1), 'u')
+        if v.ty[0] == 'opt':
+            if not path:
+                return pre, term, v.ty
+            p2, term = self.bind_comp(Prim(f'enone {paren(term)}', 1), 'o')
+            pre = pre + p2
         ty = T.TRec(recname)
         for f in path:
             if ty[0] == 'opt':
@@ -526,21 +544,22 @@ class ExprMixin:
         if k == 'cfgkey':
             return pre, self.cfg_key(d[1], node), T.TZ
         if k == 'opfield':
-            if d[1] not in self.ctx.opcode_fields:
+            am = self.tr.opcode_attrmap[self.ctx.opcode_class]
+            if am.get(d[1]) is None:
                 raise self.uns(f'opcode field {d[1]}', node)
-            return pre, f'f_{d[1]}', T.TZ
+            return pre, f'f_{am[d[1]]}', T.TZ
         if k == 'excfield':
             if d[1] in ('abort_type', 'is_second_stage'):
                 return pre, 'e_' + d[1], T.TZ
             raise self.uns('exception field', node)
         if k == 'mfield':
-            p, t = self.bind_comp(Prim(f'get_{d[1]}', 2), 'm')
+            p, t = self.bind_comp(Prim(f'get_{d[1]}', 2, ro=True), 'm')
             return pre + p, t, T.TZ
         if k == 'executed':
             p, t = self.bind_comp(Prim('get_executed', 2), 'm')
             return pre + p, t, T.TOpt(T.TOPC)
         if k == 'zslot':
-            p, t = self.bind_comp(Prim(f'get_sys {d[1]}', 2), 'r')
+            p, t = self.bind_comp(Prim(f'get_sys {d[1]}', 2, ro=True), 'r')
             return pre + p, t, T.TZ
         if k == 'reg':
             return pre, '', T.TReg(d[1], d[2])
@@ -553,6 +572,10 @@ class ExprMixin:
             reg, a = d[1], d[2]
             cls = self.prog.cls(reg[1])
             fi = cls.find_method(self.prog, a)
+            if fi is None and a not in ('length', 'n'):
+                # no such attribute on this register class: AttributeError at run time
+                p, t = self.bind_comp(Raise('EHost HNone', 1), 'u')
+                return pre + p, t, T.TZ
             if fi is None or not fi.is_property:
                 raise self.uns(f'register attribute {reg[1]}.{a}', node)
             out = self.tr.fn(fi)
@@ -570,7 +593,7 @@ class ExprMixin:
                 f = 'dev_end'
             else:
                 raise self.uns(f'device attribute {a}', node)
-            p, t = self.bind_comp(Prim(f'reads (fun h => {f} (nth (Z.to_nat {d[1]}) h (mk_device 0 0 [])))', 2), 'd')
+            p, t = self.bind_comp(Prim(f'reads (fun h => {f} (nth (Z.to_nat {d[1]}) h (mk_device 0 0 [])))', 2, ro=True), 'd')
             return pre + p, t, T.TZ
         if k == 'valattr':
             # .value of an enum-typed integer
@@ -595,6 +618,8 @@ class ExprMixin:
 
     # ------------------------------------------------------------------ subscript (read)
     def subscript(self, node, env):
+        if isinstance(node.value, ast.Dict):
+            return self.dict_literal_lookup(node, env)
         pre, d = self.place(node, env)
         k = d[0]
         if k == 'Relem':
@@ -650,8 +675,10 @@ class ExprMixin:
             return pv, tup_proj(tv, i, n), tyv[1][i]
         if tyv[0] == 'dictconst':
             return self.dict_lookup(tyv, node, env)
-        if isinstance(node.value, ast.Dict):
-            return self.dict_literal_lookup(node, env)
+        if tyv == T.TZ:
+            # subscripting an int: TypeError at run time
+            p, t = self.bind_comp(Raise('EHost HType', 1), 'u')
+            return pv + p, t, T.TZ
         raise self.uns(f'subscript of {tyv}: {T.unparse(node)}', node)
 
     def dict_literal_lookup(self, node, env):
@@ -696,9 +723,13 @@ class ExprMixin:
             return self.wrap_pre(pre_t, Bind('_', Prim('reset_changed 0 16', 2), k(env)))
         if kd in ('reg',) and isinstance(value, ast.Call) and isinstance(value.func, ast.Name) and not value.args:
             # self.vbar = VBAR(): a fresh register object holding its configured reset value
-            raise self.uns('re-creating a register object', st)
+            if d[2][0] != 'slot' or value.func.id != d[1] or value.keywords:
+                raise self.uns('re-creating a register object of a different class', st)
+            self.use_cfg()
+            prim = Prim(f'put_sys {d[2][1]} (getl (cfg_reset_values cfg) {d[2][1]})', 2)
+            return self.wrap_pre(pre_t, Bind('_', prim, k(env)))
         pv, vt, vty = self.expr(value, env)
-        pre = pre_t + pv
+        pre = pv + pre_t   # Python evaluates the right-hand side before the target
         if kd == 'Relem':
             return self.wrap_pre(pre, Bind('_', Prim(f'putR {paren(d[1])} {paren(vt)}', 2), k(env)))
         if kd == 'changedelem':
@@ -971,14 +1002,35 @@ class ExprMixin:
             if pty == T.TZ and ty != T.TZ:
                 p, t = self.as_Z(t, ty, node)
                 pre += p
+            elif ty != pty and ty == T.TOpt(pty):
+                p, t = self.bind_comp(Prim(f'enone {paren(t)}', 1), 'o')
+                pre += p
+            elif ty != pty and pty == T.TOpt(ty):
+                t = f'(Some {paren(t)})'
             elif pty != ty and not (pty == T.TZ):
                 raise self.uns(f'argument type {ty} for parameter {pn}:{pty} of {out.pyname}', node)
             terms.append(t)
         p2, t = self.call_fn(out, terms, node)
         return pre + p2, t, out.rettype
 
+    def unsupported_call(self, fi, node, env, pre, why):
+        """callee outside the translated subset: the model gives up (EUnsupported) if this call is reached"""
+        table = {'second_stage_translate': T.TRec('AddressDescriptor'), 'translation_table_walk_ld': T.TRec('TLBRecord'),
+                 'translation_table_walk_sd': T.TRec('TLBRecord'), 'translate_address_v': T.TRec('AddressDescriptor')}
+        ty = table.get(fi.name, T.TZ)
+        pa = []
+        for a in list(node.args) + [k.value for k in node.keywords]:
+            p, t, _ = self.expr(a, env)
+            pa += p
+        self.out.unsupported_calls = getattr(self.out, 'unsupported_calls', []) + [f'{fi.name}: {why}']
+        p2, t2 = self.bind_comp(Raise('EUnsupported', 1), 'uns')
+        return pre + pa + p2, t2, ty
+
     def call_method(self, fi, node, env, pre):
-        out = self.tr.fn(fi)
+        try:
+            out = self.tr.fn(fi)
+        except Unsupported as e:
+            return self.unsupported_call(fi, node, env, pre, str(e))
         p0, args = self.match_args(out, node.args, node.keywords, env, node)
         terms = []
         pre = pre + p0
@@ -987,6 +1039,11 @@ class ExprMixin:
             if pty == T.TZ and ty != T.TZ:
                 p, t = self.as_Z(t, ty, node)
                 pre += p
+            elif ty != pty and ty == T.TOpt(pty):
+                p, t = self.bind_comp(Prim(f'enone {paren(t)}', 1), 'o')
+                pre += p
+            elif ty != pty and pty == T.TOpt(ty):
+                t = f'(Some {paren(t)})'
             elif pty != ty:
                 raise self.uns(f'argument type {ty} for parameter {pn}:{pty} of {out.pyname}', node)
             terms.append(t)
@@ -1021,9 +1078,20 @@ class ExprMixin:
                 pre += p + p2
                 slots[kw.arg] = z
             init = self.prog.cls(absname).methods.get('__init__')
+            dfl = self.tr.opcode_defaults[absname]
             for fnm in fields:
                 if fnm not in slots:
-                    raise self.uns(f'missing constructor argument {fnm}', node)
+                    if fnm in dfl:
+                        # defaults are evaluated in the abstract class's module
+                        save = self.mod
+                        self.mod = self.prog.cls(absname).mod
+                        try:
+                            p, t, ty = self.expr(dfl[fnm], T.Env(self.ctx))
+                        finally:
+                            self.mod = save
+                        slots[fnm] = t
+                    else:
+                        raise self.uns(f'missing constructor argument {fnm}', node)
             return pre, f'({code}, [{"; ".join(slots[f] for f in fields)}])', T.TOPC
         if self.tr.enum_class(c.name):
             # EnumClass(value): identity on valid codes (ValueError otherwise: outside the model, DESIGN 1.2)
@@ -1037,6 +1105,8 @@ class ExprMixin:
         """method call on a run-time value: opcode / class dispatch"""
         p, t, ty = self.expr(d[1], env)
         a = d[2]
+        if a in ('from_bitarray', 'execute'):
+            self.out.deps_dynamic = True
         if ty == T.TCCLS and a == 'from_bitarray':
             pa, args = [], []
             for x in node.args[:1]:
